@@ -11,6 +11,7 @@ import (
 	baskettypes "github.com/KiraCore/sekai/x/basket/types"
 	collectivestypes "github.com/KiraCore/sekai/x/collectives/types"
 	govtypes "github.com/KiraCore/sekai/x/gov/types"
+	mstypes "github.com/KiraCore/sekai/x/multistaking/types"
 	sdk "github.com/cosmos/cosmos-sdk/types"
 )
 
@@ -600,6 +601,136 @@ func scenarioEscrows(e *env) {
 	e.reimport()
 }
 
+// ---------------------------------------------------------------- scripted boundary stream (runs in every check)
+// Every operation with a rounding step is swept over odd / even amounts and .5 boundaries, over 1-3 denominations, and
+// judged by the same clauses: slashes, pro-rata redemption, reward allocation, basket mint / burn / swap, rate-based
+// spending claims, collectives portions.
+var sweepAmounts = []int64{1, 2, 3, 5, 7, 999, 1001, 13, 15, 1_000_003}
+
+func dec(s string) sdk.Dec { return sdk.MustNewDecFromStr(s) }
+
+func scenarioBoundaries(e *env) {
+	app := e.c.App
+	e.setup()
+	e.begin(5, 0)
+	// a third stakable denomination (as a passed token-info proposal would enable it)
+	e.direct("setup", func(ctx sdk.Context) error {
+		ti := app.TokensKeeper.GetTokenInfo(ctx, "xeth")
+		ti.StakeEnabled = true
+		return app.TokensKeeper.UpsertTokenInfo(ctx, *ti)
+	}, nil, nil, map[string]interface{}{"what": "xeth made stakable"})
+	nVal := len(e.c.Validators)
+	for v := 2; v < nVal; v++ {
+		e.tx("setup", v, []sdk.Msg{mstypes.NewMsgUpsertStakingPool(e.addr(v), e.valStr(v), true, sdk.NewDecWithPrec(10, 2))}, nil, map[string]interface{}{"what": "staking pool", "validator": v})
+	}
+	// stakes per pool and denomination, two delegators each (odd splits)
+	stakes := [][3]int64{{1, 2, 3}, {5, 7, 999}, {1001, 3, 11}, {999, 999, 1}, {7, 1001, 2}, {13, 15, 1_000_003}}
+	fracs := [][]string{
+		{"0.5", "0.5", "0.5"},
+		{"0.5", "0.25", "0.125"},
+		{"0.25", "0.333333333333333333", "0.5"},
+		{"0.5", "0.01", "0.5"},
+		{"0.125", "0.5", "0.333333333333333333"},
+		{"0.333333333333333333", "0.5", "0.25", "0.01", "0.5"}}
+	for i, st := range stakes {
+		v := 2 + i
+		if v >= nVal {
+			break
+		}
+		dens := []string{"ukex", "ubtc", "xeth"}
+		for j, d := range dens[:1+i%3] { // 1, 2 or 3 denominations staked in the pool
+			a := st[j]
+			first := (a + 1) / 2
+			e.delegate(1, v, d, first)
+			if a-first > 0 {
+				e.delegate(5, v, d, a-first)
+			}
+		}
+		if i%3 != 2 { // and one pool shape with all three in ONE message
+			e.delegateCoins(4, v, coins("ukex", st[0]).Add(coin("ubtc", st[1])).Add(coin("xeth", st[2])))
+		}
+	}
+	e.end()
+	e.begin(7, 1)
+	for i := range stakes {
+		v := 2 + i
+		if v >= nVal {
+			break
+		}
+		for k, f := range fracs[i] {
+			e.slashDec(v, dec(f))
+			// redeem pro rata after the slash: small and odd amounts by a holder
+			if p, ok := e.poolOf(v); ok {
+				for _, c := range p.TotalStakingTokens {
+					if k%2 == 0 && c.Amount.IsPositive() {
+						amt := sweepAmounts[(i+k)%len(sweepAmounts)]
+						if c.Amount.LT(sdk.NewInt(amt)) {
+							amt = 1
+						}
+						e.undelegate(1, v, c.Denom, amt)
+					}
+				}
+			}
+		}
+	}
+	// reward allocations of 1, 2, 3, ... units to a pool with several staked denominations and delegators
+	for _, a := range sweepAmounts[:8] {
+		e.rewardExact(0, coins("ukex", a))
+		e.rewardExact(1, coins("ukex", a).Add(coin("ubtc", a+2)))
+	}
+	e.delegateCoins(2, 1, coins("ukex", 999).Add(coin("ubtc", 1001)))
+	e.delegateCoins(3, 1, coins("ukex", 7).Add(coin("ubtc", 3)))
+	for _, a := range sweepAmounts[:8] {
+		e.rewardExact(1, coins("ukex", a).Add(coin("ubtc", a)))
+	}
+	e.claimRewards(2)
+	e.claimRewards(3)
+	e.end()
+
+	// baskets: mint / burn / swap amounts over the sweep, both baskets (weights 2:1 and 1:3)
+	e.begin(3, 0)
+	for _, bid := range []uint64{1, 2} {
+		e.bk = bid
+		e.basketMintCoins(2, coins("ubtc", 1_000_001).Add(coin("xeth", 999_999)))
+		for _, a := range sweepAmounts {
+			e.basketMint(3, []string{"ubtc", "xeth"}[a%2], a)
+			e.basketMintCoins(3, coins("ubtc", a).Add(coin("xeth", a+1)))
+		}
+		for _, a := range sweepAmounts[:8] {
+			e.basketSwap(3, "ubtc", a*101, "xeth")
+			e.basketSwap(3, "xeth", a*99+1, "ubtc")
+			e.basketBurn(3, a)
+		}
+		e.surplusProposal(5, []uint64{bid})
+	}
+	e.bk = 1
+	// spending claims over odd durations and weights 1, 2, 1.5; withdraw proposals of odd amounts to 1-3 payees
+	for _, dt := range []int64{1, 3, 7, 2, 999} {
+		e.end()
+		e.begin(dt, 1)
+		e.spClaim(3, "sp1")
+		e.spClaim(4, "sp1")
+		e.spClaim(0, "sp1")
+		e.distributionProposal("sp2")
+		e.withdrawProposal("sp1", []int{3, 4, 0}[:1+int(dt%3)], coins("ukex", dt).Add(coin("ubtc", dt+2)))
+	}
+	// collectives: contributions of odd amounts, donation fractions on the .5 boundary, withdrawals
+	shares := "v1/ukex"
+	for i, a := range []int64{3, 1, 5, 7, 999, 1001} {
+		u := []int{4, 5}[i%2]
+		e.delegate(u, 0, "ukex", a+10)
+		e.collContribute(u, shares, a)
+		e.collDonate(u, []int64{50, 25, 33, 50, 1, 50}[i])
+		if i%2 == 1 {
+			e.collWithdraw(u)
+		}
+	}
+	e.collWithdraw(4)
+	e.collWithdraw(5)
+	e.collWithdraw(3)
+	e.end()
+}
+
 // layer2 MintIssueTx mints the native token
 func scenarioNativeIssue(e *env) {
 	e.setup()
@@ -648,8 +779,11 @@ func main() {
 	for _, sc := range []struct {
 		name string
 		f    func(*env)
-	}{{"scenario:slash_then_redeem", scenarioSlash}, {"scenario:reward_rounding", scenarioRounding}, {"scenario:native_issue", scenarioNativeIssue}, {"scenario:proposal_payouts", scenarioProposals}, {"scenario:rotation_reimport", scenarioRotation}, {"scenario:escrows_interleaved", scenarioEscrows}} {
+	}{{"scenario:slash_then_redeem", scenarioSlash}, {"scenario:reward_rounding", scenarioRounding}, {"scenario:native_issue", scenarioNativeIssue}, {"scenario:proposal_payouts", scenarioProposals}, {"scenario:rotation_reimport", scenarioRotation}, {"scenario:escrows_interleaved", scenarioEscrows}, {"scenario:rounding_boundaries", scenarioBoundaries}} {
 		e := newEnv(seed, dist)
+		if sc.name == "scenario:rounding_boundaries" {
+			e = newEnvN(seed, dist, 8, 8)
+		}
 		sc.f(e)
 		finish(e, sc.name, seed)
 	}
